@@ -49,18 +49,59 @@ static std::string hll_readout(const Hll& s) {
     " cbytes=" + bytes_hex(s.serialize_compact()) + " ubytes=" + bytes_hex(s.serialize_updatable());
 }
 
+// Type-converting copies: hll_sketch(const hll_sketch&, tgt_type) / copyAs / get_result(type).  The converted copy is a
+// different representation of the same sketch, so it must behave like its source through identical continued
+// histories (reset() then updates, or just further updates): compared on a type-independent read-out (mode via
+// the image, lg_k, emptiness, estimates, and the image after normalising both to HLL_8).
+static std::string hll_type_free_readout(const Hll& s) {
+  const Hll h8(s, HLL_8);
+  auto img = s.serialize_compact();
+  static const char* m[] = {"list", "set", "hll", "?"};
+  return std::string("mode=") + m[img[7] & 3] + " lg_k=" + std::to_string(s.get_lg_config_k()) + " empty=" + std::to_string(s.is_empty()) +
+    " est=" + dstr(s.get_estimate()) + " comp=" + dstr(s.get_composite_estimate()) + " lb=" + dstr(s.get_lower_bound(1)) + " ub=" + dstr(s.get_upper_bound(1)) +
+    " as8=" + bytes_hex(h8.serialize_updatable());
+}
+// `ref` and `conv` describe the same sketch (conv was obtained by a type-converting copy); both are temporaries
+static void hll_continue_both(Hll& ref, Hll& conv, const HCfg& c, Rng& r, const std::string& label) {
+  const std::string fam = c19ctx().family;
+  auto compare = [&](const char* stage) {
+    const std::string a = hll_type_free_readout(ref), b = hll_type_free_readout(conv);
+    checked();
+    if (a != b) c19_fail("type-converting-copy|diverges-" + std::string(stage), label + ": " + first_diff(a, b));
+  };
+  compare("right-after-the-copy");
+  const uint64_t seed = r.next();
+  const bool with_reset = r.coin();
+  for (Hll* s : {&ref, &conv}) {
+    Rng t(seed);
+    if (with_reset) s->reset();
+    HCfg small = c; small.max_batch = t.coin() ? 3 : c.max_batch;
+    feed(*s, small, t);
+  }
+  compare(with_reset ? "after-reset-and-updates" : "after-further-updates");
+  xcount(fam + ".type_convert_" + label);
+  xcount(fam + (with_reset ? ".type_convert_continued_with_reset" : ".type_convert_continued_without_reset"));
+}
+static void hll_type_convert_check(const Hll& o, const HCfg& c, Rng& r) {
+  const target_hll_type to = pick_type(r);
+  static const char* t[] = {"4", "6", "8"};
+  const std::string label = std::string(t[o.get_target_type()]) + "to" + t[to] + (o.sketch_impl->isStartFullSize() ? "_full_size" : "_lazy");
+  Hll ref(o);          // same-type copy (its own equality with o is checked by the copy-construct operations)
+  Hll conv(o, to);     // converting copy
+  hll_continue_both(ref, conv, c, r, label);
+}
+
 struct HllFam {
   typedef Hll Obj; typedef HCfg Cfg;
   static const char* name() { return "hll"; }
   static Cfg gen_cfg(Rng& r) { return gen_hcfg(r); }
   static std::string cfg_str(const Cfg& c) { return hcfg_str(c); }
   static void construct(void* mem, const Cfg& c, Arena* a, Rng& r) { new (mem) Hll(r.coin() ? c.lg_k1 : c.lg_k2, pick_type(r), r.chance(0.2), A(a)); }
-  static void mutate(Obj& o, const Cfg& c, Rng& r, Arena*) { feed(o, c, r); }
+  static void mutate(Obj& o, const Cfg& c, Rng& r, Arena*) { if (r.chance(0.35)) hll_type_convert_check(o, c, r); feed(o, c, r); }
   static std::string readout(const Obj& o, const Cfg&) { return hll_readout(o); }
-  static void query(const Obj& o, const Cfg&, Rng& r) {
+  static void query(const Obj& o, const Cfg& c, Rng& r) {
     (void)o.get_lower_bound(1); (void)o.get_upper_bound(3);
-    Hll conv(o, pick_type(r));      // type-converting copy
-    (void)conv.get_estimate();
+    hll_type_convert_check(o, c, r);
     (void)o.get_compact_serialization_bytes(); (void)o.get_updatable_serialization_bytes();
   }
   static const bool SINGLE_INSTANCE = true;
@@ -115,7 +156,13 @@ struct HllUnionFam {
     for (int t = 0; t < 3; ++t) { Hll res = o.get_result(static_cast<target_hll_type>(t)); s += " res" + std::to_string(t) + "=" + bytes_hex(res.serialize_compact()); }
     return s;
   }
-  static void query(const Obj& o, const Cfg&, Rng& r) { Hll res = o.get_result(pick_type(r)); (void)res.get_estimate(); }
+  static void query(const Obj& o, const Cfg& c, Rng& r) {
+    const target_hll_type to = pick_type(r);
+    static const char* t[] = {"4", "6", "8"};
+    Hll ref = o.get_result(HLL_8);
+    Hll conv = o.get_result(to);
+    hll_continue_both(ref, conv, c, r, std::string("result8to") + t[to] + (ref.sketch_impl->isStartFullSize() ? "_full_size" : "_lazy"));
+  }
   static Arena* arena_of(const Obj& o) { return o.gadget_.sketch_impl->getAllocator().arena; }   // private member: -fno-access-control
   static const bool HAS_MERGE_REF = false, HAS_MERGE_MOVE = false, HAS_RESET = true, HAS_ROUNDTRIP = false;
   static void merge_ref(Obj&, const Obj&, const Cfg&) {}
